@@ -172,6 +172,26 @@ theorem scaling_beamspread (s : ℝ) (hs : 0 ≤ s) (legs vels thetas : List ℝ
   change 1 / Real.sqrt (virtualDistance 1 _ _) = 1 / Real.sqrt (virtualDistance 1 _ _) / Real.sqrt s
   rw [scaling s legs _ hne, Real.sqrt_mul hs, div_div, mul_comm]
 
+/-- **only the ratios of the velocities matter**: multiplying every leg velocity by the same non-zero constant (another unit
+of time or of length for the velocities) leaves every interface factor, hence the beamspread, unchanged -/
+theorem gammas_velocity_scale {K : Type} [Field K] (t : RTrig K) (c : K) (hc : c ≠ 0) :
+    ∀ (vels thetas : List K), gammas t (vels.map (c * ·)) thetas = gammas t vels thetas
+  | [], _ => by simp [gammas]
+  | [_], _ => by simp [gammas]
+  | _ :: _ :: _, [] => by simp [gammas]
+  | v0 :: v1 :: vs, th :: ths => by
+    have ih := gammas_velocity_scale t c hc (v1 :: vs) ths
+    simp only [List.map_cons] at ih ⊢
+    simp only [gammas, ih, mul_div_mul_left _ _ hc]
+
+/-- **another system of units** (the check's micrometre / picosecond oracle): lengths multiplied by `s ≥ 0` and all velocities
+by `c ≠ 0` — the beamspread is divided by `√s` and does not see `c` -/
+theorem unit_system_beamspread (s c : ℝ) (hs : 0 ≤ s) (hc : c ≠ 0) (legs vels thetas : List ℝ) (hne : legs ≠ []) :
+    beamspread rT (legs.map (s * ·)) (vels.map (c * ·)) thetas = beamspread rT legs vels thetas / Real.sqrt s := by
+  rw [← scaling_beamspread s hs legs vels thetas hne]
+  unfold beamspread
+  rw [gammas_velocity_scale rT c hc]
+
 end real
 
 /-! ## non-vacuity -/
